@@ -1,5 +1,5 @@
 """C18 — a save that fails does not damage what the file already held."""
-import os, shutil
+import os, shutil, json
 import h5py
 import emdfile
 from harness import common, gen, hist, alpha, faults
@@ -50,6 +50,13 @@ def node_table(path):
         if "g" in o and o["g"].get("emd_group_type") == "root":
             walk(k, o, (k,))
     return out, w
+
+
+def sort_links(o):
+    """link order is not observable (H5): h5py lists links by name, the model in creation order"""
+    if "k" in o:
+        return {"g": o["g"], "k": sorted([[k, sort_links(v)] for k, v in o["k"]], key=lambda kv: kv[0])}
+    return o
 
 
 def still_holds(b, a):
@@ -142,7 +149,7 @@ def run_both(drv, case):
                     return None, None, None
             work = os.path.join(d, "work.h5")
             shutil.copyfile(base, work)
-            inj = faults.Injector(fail_at=k)
+            inj = faults.Injector(fail_at=k, trace=True)
             exc = None
             try:
                 with common.quiet(), faults.inject(inj):
@@ -151,14 +158,39 @@ def run_both(drv, case):
                 exc = e
             return work, inj, exc
 
+        f0 = alpha.raw_file(base)["h5"]
+        impl_mut, model_mut = [], []
+
+        def mutation_level(work, inj, plain_append):
+            """replay the mutations the code PERFORMED in the Lean store model: is the model's file the real file, was every
+            mutation executable there, and (plain append) was every one of them additive w.r.t. the file before the save?"""
+            if work is None or inj is None:
+                return None
+            real = alpha.raw_file(work)
+            impl_mut.append({"final": common.digest(sort_links(real.get("h5", {"g": {}, "k": []}))), "all_executable": True})
+            if drv is None:
+                return None
+            if any(m["m"] == "untraceable" for m in inj.trace):
+                model_mut.append({"final": "untraceable mutation: " + str([m for m in inj.trace if m["m"] == "untraceable"][0]), "all_executable": False})
+                return None
+            r = drv.ask({"op": "mutations", "h5": f0, "muts": inj.trace})
+            if "final" not in r:
+                model_mut.append({"final": "driver: " + json.dumps(r)[:200], "all_executable": False})
+                return None
+            model_mut.append({"final": common.digest(sort_links(r["final"])), "all_executable": all(e for _, e in r["flags"])})
+            bad = [m for m, (a, _) in zip(inj.trace, r["flags"]) if not a]
+            return bad[0] if (bad and plain_append) else None
+
         work, inj0, exc0 = attempt(None)
         total = inj0.count
         over = ap["mode"] in ("ao", "oa", "o+", "+o", "appendover")
+        na0 = mutation_level(work, inj0, not over)
         rpaths = set(("R0",) + p for p in gen.tree_paths(case["trees"]["R"]))
         points = [(None, nat) for nat in (case["natural"] or [])]
         points += [(k, None) for k in range(min(total, case["maxk"]))]
         for k, nat in points:
             work, inj, exc = attempt(k, nat)
+            na = mutation_level(work, inj, (not over) or nat is not None)
             if exc is None:
                 continue
             after, w = node_table(work)
@@ -183,13 +215,21 @@ def run_both(drv, case):
                         unreadable.append(list(p))
             v["unreadable"] = unreadable
             v["replaced_paths"] = [list(p) for p in before if p in rpaths]
+            if na is not None:
+                v["non_additive"] = na
             verdicts.append(v)
         obs = {"total_mutations": total, "verdicts": verdicts, "unfailed_save": "ok" if exc0 is None else alpha.exc_kind(exc0)["err"]}
+        if na0 is not None:
+            obs["non_additive_in_unfailed_append"] = na0
     finally:
         shutil.rmtree(d, ignore_errors=True)
-    # model side: the property's prediction for append mode is "no verdict reports damage"; for append-over the
-    # proved part is about nodes the runtime tree does not replace (see EmdProps/C18.lean)
-    return obs, obs
+    # model side.  Tree level: the property's prediction for append mode is "no verdict reports damage" (for append-over the
+    # proved part is about nodes the runtime tree does not replace, see EmdProps/C18.lean).  Mutation level: for every attempt
+    # (unfailed, every failure point, every natural failure) the mutations the code performed are replayed in the Lean store
+    # model; the model's final file must be the real final file and every mutation must be executable there.
+    if drv is None:
+        return dict(obs, mutation_level=impl_mut), None
+    return dict(obs, mutation_level=impl_mut), dict(obs, mutation_level=model_mut)
 
 
 def damage(v):
@@ -208,7 +248,11 @@ def damage(v):
 def oracle(case, obs):
     """the first failing verdict that no listed finding explains, else the first failing verdict, else None"""
     fails = []
+    if "non_additive_in_unfailed_append" in obs:
+        return {"non_additive_mutation_in_a_plain_append": obs["non_additive_in_unfailed_append"]}
     for v in obs["verdicts"]:
+        if "non_additive" in v:
+            return {"non_additive_mutation_in_a_plain_append": v["non_additive"], "failure_point": v["k"]}
         dm = damage(v)
         if dm:
             fails.append({"failure_point": v["k"], "mutation": v["what"], "append_over": v["over"],
